@@ -50,7 +50,7 @@ MDNS = vsim.MDNS_ADDR
 
 CFG = dict(ann=[350, 575, 800], upd=[0, 225, 450], bye=[0, 125, 250], maxDelay=100, qLo=20, qHi=120,
            qOff=[0, 1000, 5000, 14000], dupQ=999, respBefore=1000, respAfter=1200, regDelay=350,
-           ptrMinTtl=1125, cleanup=10000, refreshAt=[750, 850], refreshEarly=10000, refreshWin=25000)
+           ptrMinTtl=1125, cleanup=10000, refresh1=750, refresh2=850, refreshEarly=10000, refreshWin=25000)
 
 
 # ------------------------------------------------------------------------------------------
@@ -924,19 +924,25 @@ def monitors(tr, endT, cfg=CFG):
                 ttl = ptr_of(x[6], sv)
                 if sv[1] != ty or not ttl > 0:
                     continue
-                for k in cfg["refreshAt"]:
-                    due = x[0] + k * (eff_ttl(ttl, cfg) // 1000)
-                    lo = tb if due < tb else due
-                    hi = lo + cfg["refreshWin"]
+                e_s = eff_ttl(ttl, cfg) // 1000
+                for second in (False, True):
+                    # the browser existed when the record reached 75 % of its life: windows around 75 % / 85 % (10 s + 999 ms
+                    # early: "avoid churn" keeps a schedule within 10 s; 25 s late: rate limit / start-up phase); it started
+                    # later: its 3rd / 4th start-up question (the record is stale by then and is not listed)
+                    if tb <= x[0] + cfg["refresh1"] * e_s:
+                        due = x[0] + (cfg["refresh2"] if second else cfg["refresh1"]) * e_s
+                        a, hi = due - cfg["refreshEarly"] - cfg["dupQ"], due + cfg["refreshWin"]
+                    else:
+                        off = cfg["qOff"][3 if second else 2]
+                        a, hi = tb + cfg["qLo"] + off - cfg["dupQ"], tb + cfg["qHi"] + off
                     if hi > endT:
                         continue
                     if any(e[4] == h and ptr_of(e[6], sv) is not None and x[0] < e[0] <= hi for e in dlvs):
                         continue
-                    early = lo - cfg["refreshEarly"] - cfg["dupQ"]  # "avoid churn": a refreshed record keeps a schedule up to 10 s early
-                    ok = any(sd[2] == h and sd[4] is None and early <= sd[0] <= hi and asks_without(sd[5], ty, sv) for sd in sends) \
-                        or any(e[4] == h and e[5] and early <= e[0] <= hi and asks_without(e[6], ty, sv) for e in dlvs)
+                    ok = any(sd[2] == h and sd[4] is None and a <= sd[0] <= hi and asks_without(sd[5], ty, sv) for sd in sends) \
+                        or any(e[4] == h and e[5] and a <= e[0] <= hi and asks_without(e[6], ty, sv) for e in dlvs)
                     if not ok:
-                        bad["K3b"].append(["held-ptr-not-requeried", x[0], k, br, sv])
+                        bad["K3b"].append(["held-ptr-not-requeried", x[0], "85%" if second else "75%", br, sv])
 
     # ---- KF: on a browsing host the PTR of a registered instance of its type is unexpired at the end of the window
     dlv_svcs = []
